@@ -334,6 +334,229 @@ theorem fromCtyObject_tie (S : Sched) (names : List String) (atys : List Ty) (op
   | cval => simp [GoTy.isCval] at hc
   | _ => shape_simp [fromCtyObject]
 
+/-! ### `fromCtyValue`: the guards and the dispatch, for ANY recursive decoder and map order -/
+
+@[simp] theorem populateTy_false (T : GoTy) : populateTy T false = T.base := rfl
+@[simp] theorem populateLift_false (T : GoTy) : populateLift T false = wrapPtr T.depth := rfl
+@[simp] theorem populateLift_true (T : GoTy) : populateLift T true = wrapPtr (T.depth - 1) := rfl
+
+theorem isNamed_valueType (T : GoTy) : isNamed T .valueType = T.isCval := by cases T <;> rfl
+
+theorem base_kind_cval {T : GoTy} (h : T.base.isCval = true) : T.base = .cval := by
+  cases hb : T.base <;> simp_all [GoTy.isCval]
+
+theorem nullViaPtr_eq (ty : Ty) : nullViaPtr ty = (!(isListType ty) && !(isMapType ty) && !(isCapsuleType ty)) := by
+  cases ty <;> rfl
+
+theorem kindOf_populate_null (T : GoTy) : (kindOf (populateTy T true) = Kind.kPtr) ↔ T.depth ≠ 0 := by
+  cases T with
+  | int w s => cases w <;> cases s <;> simp [populateTy, GoTy.depth, kindOf]
+  | float is32 => cases is32 <;> simp [populateTy, GoTy.depth, kindOf]
+  | _ => simp [populateTy, GoTy.depth, kindOf]
+
+/-- the first guard: a target whose pointee is a `cty.Value` receives the value as it is — unknown, null or marked alike -/
+theorem fromCtyValue_cval (rec : Rec) (ord : List String → List String) (v : Value) (T : GoTy) (tv : GoVal)
+    (h : T.base.isCval = true) : fromCtyValue rec ord v T tv = .ok (wrapPtr T.depth (.cval v)) := by
+  have hb := base_kind_cval h
+  simp [fromCtyValue, populateTy, hb, kindOf, assignableTo, isNamed, setCval, liftRes, populateLift, mapRes]
+
+/-- the second guard: null (of a type other than list, map, capsule; marked or not) sets the LAST pointer of the target to
+nil, and is refused by a target that is not a pointer -/
+theorem fromCtyValue_null (rec : Rec) (ord : List String → List String) (v : Value) (T : GoTy) (tv : GoVal)
+    (hc : T.base.isCval = false) (hn : v.isNull = true) (hv : nullViaPtr v.ty = true) :
+    er (fromCtyValue rec ord v T tv) = if T.depth = 0 then .err "" else .ok (wrapPtr (T.depth - 1) .nilPtr) := by
+  have h1 : assignableTo T.base .valueType = false := by
+    simp [assignableTo, isNamed_valueType, hc]
+  have h2 : (valIsNull v && !isListType v.ty && !isMapType v.ty && !isCapsuleType v.ty) = true := by
+    rw [nullViaPtr_eq] at hv
+    simp only [valIsNull, hn, Bool.true_and, Bool.and_assoc]
+    simpa [Bool.and_assoc] using hv
+  unfold fromCtyValue
+  simp only [populateTy_false, populateLift_false, populateLift_true, h1, Bool.and_false, Bool.false_eq_true, if_false, h2, if_true]
+  by_cases hd : T.depth = 0
+  · have : ¬ (kindOf (populateTy T true) = Kind.kPtr) := fun h => (kindOf_populate_null T).mp h hd
+    simp [this, hd]
+  · have : kindOf (populateTy T true) = Kind.kPtr := (kindOf_populate_null T).mpr hd
+    simp [this, hd, populateTy, setZero, zeroVal, liftRes, mapRes, kindOf]
+
+theorem isNull_of_unknown (v : Value) (h : v.isKnown = false) : v.isNull = false := by
+  unfold Value.isKnown Payload.isKnown at h
+  unfold Value.isNull Payload.isNull
+  split at h <;> simp_all
+
+/-- the third guard: an unknown value (marked or not) is refused by every target whose pointee is not a `cty.Value` -/
+theorem fromCtyValue_unknown (rec : Rec) (ord : List String → List String) (v : Value) (T : GoTy) (tv : GoVal)
+    (hc : T.base.isCval = false) (hk : v.isKnown = false) : er (fromCtyValue rec ord v T tv) = .err "" := by
+  have h1 : assignableTo T.base .valueType = false := by
+    simp [assignableTo, isNamed_valueType, hc]
+  unfold fromCtyValue
+  simp [populateTy_false, h1, valIsNull, isNull_of_unknown v hk, valIsKnown, hk]
+
+/-- the dispatch: a known value that the null guard lets through is handed, with the pointee `T.base` as the target, to the
+decoder of its type kind; the outcome is wrapped in the pointers allocated on the way -/
+theorem fromCtyValue_dispatch (rec : Rec) (ord : List String → List String) (v : Value) (T : GoTy) (tv : GoVal)
+    (hc : T.base.isCval = false) (hk : v.isKnown = true) (hn : v.isNull = false ∨ nullViaPtr v.ty = false) :
+    fromCtyValue rec ord v T tv =
+      mapRes (wrapPtr T.depth)
+        (match v.ty with
+         | .bool => fromCtyBool v T.base (zeroVal T.base)
+         | .number => fromCtyNumber v T.base (zeroVal T.base)
+         | .string => fromCtyString v T.base (zeroVal T.base)
+         | .list _ => fromCtyList rec v T.base (zeroVal T.base)
+         | .map _ => fromCtyMap rec v T.base (zeroVal T.base)
+         | .set _ => fromCtySet rec v T.base (zeroVal T.base)
+         | .object _ _ _ => fromCtyObject rec ord v T.base (zeroVal T.base)
+         | .tuple _ => fromCtyTuple rec v T.base (zeroVal T.base)
+         | .capsule _ => GoctyGo.fromCtyCapsule v T.base
+         | .dyn => .err "unsupported source type %#v") := by
+  have h1 : assignableTo T.base .valueType = false := by
+    simp [assignableTo, isNamed_valueType, hc]
+  have h2 : (valIsNull v && !isListType v.ty && !isMapType v.ty && !isCapsuleType v.ty) = false := by
+    rcases hn with hn | hn
+    · simp [valIsNull, hn]
+    · rw [nullViaPtr_eq] at hn
+      cases hnull : valIsNull v
+      · simp
+      · simpa [Bool.and_assoc] using hn
+  unfold fromCtyValue
+  simp only [populateTy_false, populateLift_false, h1, Bool.and_false, Bool.false_eq_true, if_false, h2, valIsKnown, hk, Bool.not_true, liftRes]
+  cases hty : v.ty <;>
+    simp [tyIs, isListType, isMapType, isSetType, isObjectType, isTupleType, isCapsuleType, mapRes, newErrorf]
+
+/-! ### `fromCtyValue` = the model, guard by guard and kind by kind -/
+
+theorem base_base : ∀ T : GoTy, T.base.base = T.base
+  | .ptr e => by simp only [GoTy.base]; exact base_base e
+  | .int _ _ | .float _ | .str | .bool | .slice _ | .array _ _ | .map _ | .struct _ _ | .bigInt | .bigFloat | .cval => rfl
+
+theorem base_depth : ∀ T : GoTy, T.base.depth = 0
+  | .ptr e => by simp only [GoTy.base]; exact base_depth e
+  | .int _ _ | .float _ | .str | .bool | .slice _ | .array _ _ | .map _ | .struct _ _ | .bigInt | .bigFloat | .cval => rfl
+
+theorem mapRes_id' (r : Res GoVal) : mapRes (wrapPtr 0) r = r := by cases r <;> rfl
+
+/-- the model decodes into a pointer chain by decoding into its pointee and wrapping — except for a null that
+goes through the pointer -/
+theorem fromCtyP_via_base (S : Sched) (ms : List String) (ty : Ty) (p : Payload) (T : GoTy)
+    (hc : T.base.isCval = false) (hm : p.isMarked = false) (hn : p.isNull = false ∨ nullViaPtr ty = false) :
+    fromCtyP S ms ty p T = mapRes (wrapPtr T.depth) (fromCtyP S ms ty p T.base) := by
+  have hbb := base_base T
+  have hd0 := base_depth T
+  generalize hB : T.base = B at *
+  generalize hD : T.depth = d
+  cases p with
+  | marked m r => simp [Payload.isMarked] at hm
+  | null =>
+    have hv : nullViaPtr ty = false := by
+      rcases hn with h | h
+      · simp [Payload.isNull, Payload.unmark1] at h
+      · exact h
+    unfold fromCtyP
+    simp only [hB, hbb, hc, hD, hd0, hv, Bool.false_eq_true, if_false]
+    cases ty <;> simp [nullViaPtr] at hv <;> cases B <;> simp [mapRes, wrapPtr]
+  | unk r => unfold fromCtyP; simp [hB, hbb, hc, mapRes]
+  | b v => unfold fromCtyP; simp only [hB, hbb, hc, hD, hd0, Bool.false_eq_true, if_false]; cases ty <;> cases B <;> simp [mapRes, wrapPtr] <;> split <;> rfl
+  | n x =>
+    unfold fromCtyP; simp only [hB, hbb, hc, hD, hd0, Bool.false_eq_true, if_false]
+    cases ty <;> simp [mapRes] <;> split <;> first | rfl | (cases fromNum x B <;> simp [mapRes, wrapPtr]) | simp [mapRes, mapRes_id', wrapPtr]
+  | s v => unfold fromCtyP; simp only [hB, hbb, hc, hD, hd0, Bool.false_eq_true, if_false]; cases ty <;> cases B <;> simp [mapRes, wrapPtr] <;> split <;> rfl
+  | seq cs =>
+    unfold fromCtyP; simp only [hB, hbb, hc, hD, hd0, Bool.false_eq_true, if_false]
+    cases ty <;> cases B <;> simp [mapRes, wrapPtr] <;> (repeat' split) <;> simp_all [mapRes, wrapPtr, mapRes_mapRes]
+  | smap ks cs =>
+    unfold fromCtyP; simp only [hB, hbb, hc, hD, hd0, Bool.false_eq_true, if_false]
+    cases ty <;> cases B <;> simp [mapRes, wrapPtr] <;> (repeat' split) <;> simp_all [mapRes, wrapPtr, mapRes_mapRes]
+  | sset ids cs =>
+    unfold fromCtyP; simp only [hB, hbb, hc, hD, hd0, Bool.false_eq_true, if_false]
+    cases ty <;> cases B <;> simp [mapRes, wrapPtr] <;> (repeat' split) <;> simp_all [mapRes, wrapPtr, mapRes_mapRes]
+  | caps => unfold fromCtyP; simp [hB, hbb, hc, mapRes]
+  | bad w => unfold fromCtyP; simp [hB, hbb, hc, mapRes]
+
+
+theorem er_mapRes_congr {α β} (f : α → β) {a b : Res α} (h : er a = er b) : er (mapRes f a) = er (mapRes f b) := by
+  cases a <;> cases b <;> simp_all [er, mapRes]
+
+theorem pushMarks_nil (p : Payload) : pushMarks [] p = p := rfl
+
+/-- the recursive call a value of type `ty` makes: an object passes the schedule of the NEXT depth down -/
+def recFor (S : Sched) : Ty → Rec
+  | .object _ _ _ => recS S.next
+  | _ => recS S
+
+/-- `fromCtyValue` as written in the source, with the translated decoders it dispatches to, IS the model `fromCtyP` on every
+known, non-null, kind-correct value that carries no mark at the top (tuples: as many members as the type says), into every
+target whose pointee is not `cty.Value` — the recursive calls being the model itself, the attribute order `S 0` -/
+theorem fromCtyValue_tie (S : Sched) (ty : Ty) (p : Payload) (T : GoTy) (tv : GoVal)
+    (hc : T.base.isCval = false) (hk : kindOK ty p = true)
+    (hwf : ∀ etys cs, ty = .tuple etys → p = .seq cs → cs.length = etys.length) :
+    er (fromCtyValue (recFor S ty) (S 0) ⟨ty, p⟩ T tv) = er (fromCtyP S [] ty p T) := by
+  have hd := base_depth T
+  have hcb : T.base.isCval = false := hc
+  have hc' : T.base.base.isCval = false := by rw [base_base]; exact hc
+  have hcv : (T.base).isCval = false := hc
+  cases p with
+  | b x =>
+    cases ty <;> simp [kindOK] at hk
+    rw [fromCtyValue_dispatch _ _ _ T tv hc rfl (Or.inl rfl), fromCtyP_via_base S [] _ _ T hc rfl (Or.inl rfl)]
+    exact er_mapRes_congr _ (fromCtyBool_eq_fromCtyP S [] x T.base _ hd hcv)
+  | n x =>
+    cases ty <;> simp [kindOK] at hk
+    rw [fromCtyValue_dispatch _ _ _ T tv hc rfl (Or.inl rfl), fromCtyP_via_base S [] _ _ T hc rfl (Or.inl rfl)]
+    exact er_mapRes_congr _ (fromCtyNumber_eq_fromCtyP S [] x T.base _ hd hcv)
+  | s x =>
+    cases ty <;> simp [kindOK] at hk
+    rw [fromCtyValue_dispatch _ _ _ T tv hc rfl (Or.inl rfl), fromCtyP_via_base S [] _ _ T hc rfl (Or.inl rfl)]
+    exact er_mapRes_congr _ (fromCtyString_eq_fromCtyP S [] x T.base _ hd hcv)
+  | seq cs =>
+    cases ty <;> simp [kindOK] at hk
+    · rename_i ety
+      rw [fromCtyValue_dispatch _ _ _ T tv hc rfl (Or.inl rfl), fromCtyP_via_base S [] _ _ T hc rfl (Or.inl rfl)]
+      exact er_mapRes_congr _ (fromCtyList_tie S [] ety (.seq cs) T.base _ hd hcv (Or.inr ⟨cs, rfl⟩))
+    · rename_i etys
+      rw [fromCtyValue_dispatch _ _ _ T tv hc rfl (Or.inl rfl), fromCtyP_via_base S [] _ _ T hc rfl (Or.inl rfl)]
+      exact er_mapRes_congr _ (fromCtyTuple_tie S etys cs T.base hd hcv (hwf etys cs rfl rfl))
+  | smap ks cs =>
+    cases ty <;> simp [kindOK] at hk
+    · rename_i ety
+      rw [fromCtyValue_dispatch _ _ _ T tv hc rfl (Or.inl rfl), fromCtyP_via_base S [] _ _ T hc rfl (Or.inl rfl)]
+      exact er_mapRes_congr _ (fromCtyMap_tie S [] ety (.smap ks cs) T.base _ hd hcv (Or.inr ⟨ks, cs, rfl⟩))
+    · rename_i names atys opt
+      subst hk
+      rw [fromCtyValue_dispatch _ _ _ T tv hc rfl (Or.inl rfl), fromCtyP_via_base S [] _ _ T hc rfl (Or.inl rfl)]
+      exact er_mapRes_congr _ (fromCtyObject_tie S ks atys opt cs T.base hd hcv)
+  | sset ids cs =>
+    cases ty <;> simp [kindOK] at hk
+    rename_i ety
+    rw [fromCtyValue_dispatch _ _ _ T tv hc rfl (Or.inl rfl), fromCtyP_via_base S [] _ _ T hc rfl (Or.inl rfl)]
+    exact er_mapRes_congr _ (fromCtySet_tie S [] ety ids cs T.base _ hd hcv)
+  | _ => cases ty <;> simp [kindOK] at hk
+
+/-- … and on null, unknown and `cty.Value` targets, marks pushed down from the containers included -/
+theorem fromCtyValue_tie_guards (S : Sched) (rec : Rec) (ord : List String → List String) (ms : List String) (ty : Ty)
+    (p : Payload) (T : GoTy) (tv : GoVal) (hm : p.isMarked = false) :
+    (T.base.isCval = true → fromCtyValue rec ord ⟨ty, pushMarks ms p⟩ T tv = fromCtyP S ms ty p T) ∧
+    (T.base.isCval = false → p = .null → nullViaPtr ty = true →
+      er (fromCtyValue rec ord ⟨ty, pushMarks ms p⟩ T tv) = er (fromCtyP S ms ty p T)) ∧
+    (T.base.isCval = false → (∃ r, p = .unk r) →
+      er (fromCtyValue rec ord ⟨ty, pushMarks ms p⟩ T tv) = er (fromCtyP S ms ty p T)) := by
+  refine ⟨fun hc => ?_, fun hc hp hv => ?_, fun hc hp => ?_⟩
+  · rw [fromCtyValue_cval rec ord _ T tv hc]
+    unfold fromCtyP
+    simp [hc]
+  · subst hp
+    have hnull : (⟨ty, pushMarks ms .null⟩ : Value).isNull = true := by
+      rw [pushMarks_null]; split <;> rfl
+    rw [fromCtyValue_null rec ord _ T tv hc hnull hv]
+    unfold fromCtyP
+    simp only [hc, Bool.false_eq_true, if_false, hv, if_true]
+    split <;> rfl
+  · obtain ⟨r, rfl⟩ := hp
+    have hunk : (⟨ty, pushMarks ms (.unk r)⟩ : Value).isKnown = false := by
+      rw [pushMarks_scalar ms (.unk r) rfl rfl]; split <;> rfl
+    rw [fromCtyValue_unknown rec ord _ T tv hc hunk]
+    unfold fromCtyP
+    simp [hc]
+
 /-! ### statements about the translated text itself, for ANY recursive decoder -/
 
 /-- the array length test of `fromCtyList` comes before the element loop: whatever `fromCtyValue` does with the members,
